@@ -855,6 +855,16 @@ func canonIR(d irDoc) irDoc {
 		imp[k] = c
 	}
 	d.Imports = imp
+	// getModels sorts structs and enums but hands aliases out in graph (map) order; no emitter depends on
+	// that order (components are a map), so it is not part of the observable metadata
+	al := append([]irAlias{}, d.Aliases...)
+	sort.Slice(al, func(i, j int) bool {
+		if al[i].PkgPath != al[j].PkgPath {
+			return al[i].PkgPath < al[j].PkgPath
+		}
+		return al[i].Name < al[j].Name
+	})
+	d.Aliases = al
 	return d
 }
 
